@@ -19,8 +19,10 @@ T  seeded random histories (up to 300 calls on 8 IOCBs, 2 chain objects, 2 group
 
 Conformance uses the deviation flags OBSERVED on the tree under test (probe_flags: six short scenarios), so that it stays
 meaningful on a tree that has the reported defects as well as on a repaired one; the monitors never look at the flags.
-A monitor failing on a recorded execution is a violation (signature: monitor, call, case); a step the design model
-(with the observed flags) cannot take, without any monitor failing, is a conformance deviation.
+A monitor failing on a recorded execution is a violation (signature: monitor, call, kind of target, case = the
+situation the call was made in, from the state before it); a step the design model (with the observed flags) cannot take
+is a conformance deviation.  A walk whose next call has nothing to act on in the implementation (no such timer / deferred
+call) ends there: the step at which the implementation left the model is in the recorded part.
 VERIF_X04_ASSUME_KNOWN=<json file> adds known-finding entries for one run (development aid; known_findings.json untouched).
 """
 import os, sys, json, random, collections, time, shutil, threading, heapq, copy
